@@ -213,7 +213,45 @@ def _fails_same(rep_cls, case, kind):
     return fails
 
 
+def repo_tests_under_sanitizer(rep):
+    """thorough, shard 0: the repository's own tree / slicer / interface tests executed with the
+    TreeSanitizer armed at every outermost public ContractionTree call (vf/pytest_plugin.py)"""
+    import json
+    import os
+    import subprocess
+    import sys
+    import tempfile
+
+    from ..common import REPO, VERIF
+
+    log = tempfile.mktemp(prefix="vf-sanitizer-", suffix=".jsonl", dir="/var/tmp")
+    env = dict(os.environ, VF_SANITIZER_LOG=log, PYTHONPATH=f"{REPO}:{VERIF}")
+    try:
+        p = subprocess.run(
+            [sys.executable, "-m", "pytest", "-q", "-p", "no:cacheprovider", "-p", "vf.pytest_plugin", "tests/test_tree.py", "tests/test_slicer.py", "tests/test_interface.py"],
+            cwd=REPO, env=env, capture_output=True, text=True, timeout=2400,
+        )
+    except subprocess.TimeoutExpired:
+        rep.inconclusive_case("repo tests under sanitizer: timeout")
+        return
+    import re
+
+    m = re.search(r"VF_SANITIZER checks=(\d+) problems=(\d+)", p.stdout)
+    if not m:
+        rep.inconclusive_case("repo tests under sanitizer: no summary line: " + p.stdout[-300:])
+        return
+    rep.mon("repo_tests_sanitizer_checks", int(m.group(1)))
+    if os.path.exists(log):
+        for line in open(log).read().splitlines()[:5]:
+            d = json.loads(line)
+            if "problems" in d:
+                rep.violation("repo_test_under_sanitizer", {"mode": "repo_tests", **d}, f"{d['test']} after {d['after']}: {d['problems'][0]}")
+        os.remove(log)
+
+
 def run_shard(rep, tier, seed, shard, nshards):
+    if tier == "thorough" and shard == 0:
+        repo_tests_under_sanitizer(rep)
     dl = Deadline(budget(tier, 60, 900))
     ncases = budget(tier, 120, 2500)
     for k in range(ncases):
@@ -250,6 +288,9 @@ def run_shard(rep, tier, seed, shard, nshards):
 
 
 def replay(rep, v):
+    if v["witness"].get("mode") == "repo_tests":
+        repo_tests_under_sanitizer(rep)
+        return
     try:
         run_history(rep, v["witness"])
     except Fail as f:
